@@ -69,7 +69,16 @@ var pools []*PoolInfo
 //go:norace
 func RegisterPool(site string, purge func(), length func() int) *PoolInfo {
 	pi := &PoolInfo{ID: len(pools), Site: site, Purge: purge, Len: length}
-	pools = append(pools, pi)
+	n := len(pools)
+	if n == cap(pools) {
+		grown := make([]*PoolInfo, n, 2*n+64)
+		for i := 0; i < n; i++ {
+			grown[i] = pools[i]
+		}
+		pools = grown
+	}
+	pools = pools[:n+1]
+	pools[n] = pi
 	return pi
 }
 
